@@ -73,8 +73,14 @@ def snap(x, depth=0):
     if isinstance(x, np.ndarray):
         return ('ND', str(x.dtype), x.shape, x.tobytes() if x.dtype != object else repr(x.tolist()))
     if isinstance(x, BNPDataClass):
-        if hasattr(x, '_itemgetter'):     # lazy table: snapshot what it would write + its set values
-            return ('LAZY', type(x).__name__, len(x))
+        if hasattr(x, '_itemgetter'):     # lazy table
+            # (a lazy table cannot be deep-copied; reading its fields or writing it changes hidden state.)  What identifies its
+            # value without touching it: the columns the user has set on it and the raw bytes behind it.
+            try:
+                set_values = dict(object.__getattribute__(x, '_set_values') or {})
+            except Exception:
+                set_values = {}
+            return ('LAZY', type(x).__name__, len(x), snap(set_values, depth + 1), raw_bytes(x))
         return ('DC', type(x).__name__, tuple((f.name, snap(getattr(x, f.name), depth + 1)) for f in dataclasses.fields(x)))
     if isinstance(x, (list, tuple)):
         return (type(x).__name__,) + tuple(snap(v, depth + 1) for v in x)
@@ -228,6 +234,14 @@ def registry():
     add('table[fancy]', (lambda t, i: t[i]), lambda: (T(), np.array([2, 0, 0])))
     add('np.concatenate(tables)', (lambda a, b: np.concatenate([a, b])), lambda: (T(), T()[:1]))
     add('bnp.replace', (lambda t, v: bnp.replace(t, start=v)), lambda: (T(), np.array([7, 8, 9])))
+
+    def LZ(replaced_first):
+        data, B, _ = chunk_root('bed6')
+        t = make_reader(data, B, True).read()
+        return bnp.replace(t, start=np.arange(len(t)) + 100) if replaced_first else t
+    add('bnp.replace (lazily read table)', (lambda t: bnp.replace(t, stop=np.arange(len(t)) + 1000)), lambda: (LZ(False),))
+    add('bnp.replace (lazily read table that already has a replaced column)', (lambda t: bnp.replace(t, stop=np.arange(len(t)) + 1000)),
+        lambda: (LZ(True),))
     add('table.sort_by', (lambda t: t.sort_by('start')), lambda: (T(),))
     add('table.tolist', (lambda t: [dataclasses.astuple(e) if dataclasses.is_dataclass(e) else e for e in t.tolist()]), lambda: (T(),))
     add('table.todict', (lambda t: t.todict()), lambda: (T(),))
